@@ -245,7 +245,7 @@ def run(prog: Program, rep: Report, tier: str) -> None:
         else:
             rep.ok(rid, t, where, f"{counts[rid]} path-level instances")
     # floors are on path-level instance counts
-    for rid, fl in (("R16.1", 500), ("R16.2", 100), ("R16.3", 500), ("R16.4", 20), ("R16.5", 500)):
+    for rid, fl in (("R16.1", 200), ("R16.2", 50), ("R16.3", 100), ("R16.4", 20), ("R16.5", 100)):
         if counts[rid] < fl and rid not in bad:
             rep.undecided(rid, "instance floor", where, f"only {counts[rid]} path-level instances (expected >= {fl})")
     for rid in list(rep.floors):
